@@ -255,7 +255,8 @@ impl Sys for Sys15 {
 pub fn replay(v: &serde_json::Value) -> Vec<Violation> {
     if v["check"] == "cycle" {
         let held: Vec<u128> = v["case"]["held"].as_array().unwrap().iter().map(|x| x.as_str().unwrap().parse().unwrap()).collect();
-        return cycle16(&held).into_iter().map(|(key, what)| Violation { key, what, case: v.clone() }).collect();
+        let holder = v["case"]["holder"].as_u64().unwrap_or(0) as u8;
+        return cycle16(&held, holder).into_iter().map(|(key, what)| Violation { key, what, case: v.clone() }).collect();
     }
     if v["check"] == "loom" {
         let cmd = v["case"]["cmd"].as_str().unwrap_or("mc/target/release/loomtoi");
@@ -275,34 +276,73 @@ pub fn replay(v: &serde_json::Value) -> Vec<Violation> {
     s.verdicts().into_iter().map(|(key, what)| Violation { key, what, case: v.clone() }).collect()
 }
 
-/// complete walk (twice) around the 16-bit TOI space with the given values held the whole time
-pub fn cycle16(held: &[u128]) -> Option<(String, String)> {
+/// complete walk (twice) around the 16-bit TOI space with the given values held the whole time.
+/// `holder`: 0 = by a TOI handle, 1 = by a live object the handle was attached to (set_toi + add_object),
+/// 2 = by a live object that got the value implicitly (add_object right after the preceding value)
+pub fn cycle16(held: &[u128], holder: u8) -> Option<(String, String)> {
     let r = catch(|| -> Option<(String, String)> {
         let mut s = SessSpec::basic(OtiSpec::new(Scheme::NoCode, 1424, 64, 0, true));
         s.toi_bits = 16;
         s.toi_init = Some("1".into());
         let mut snd = s.sender().unwrap();
         let mut keep: Vec<Box<Toi>> = Vec::new();
+        let mut live: BTreeSet<u128> = BTreeSet::new();
         let want: BTreeSet<u128> = held.iter().cloned().collect();
+        let how = ["a handle", "a live object (explicit TOI)", "a live object (implicit TOI)"][holder as usize % 3];
         let mut n = 0u64;
+        let mut salt = 0u8;
         for _ in 0..(2 * 65536 + 10) {
             let h = snd.allocate_toi();
             n += 1;
             let v = h.get();
             if v == 0 || v > 0xFFFF {
-                return Some(("C15/cycle/toi-out-of-range".into(), format!("allocation #{} around the 16-bit space returned {} (held: {:?})", n, v, held)));
+                return Some(("C15/cycle/toi-out-of-range".into(), format!("allocation #{} around the 16-bit space returned {} (held by {}: {:?})", n, v, how, held)));
             }
-            if keep.iter().any(|k| k.get() == v) {
-                return Some(("C15/cycle/toi-not-unique".into(), format!("allocation #{} returned {} which is held (held: {:?})", n, v, held)));
+            if live.contains(&v) {
+                return Some(("C15/cycle/toi-not-unique".into(), format!("allocation #{} returned {} which is held by {} (held: {:?})", n, v, how, held)));
             }
-            if want.contains(&v) && !keep.iter().any(|k| k.get() == v) {
-                keep.push(h);
+            // the value the allocator hands out next: the successor, skipping 0 and what is held
+            let mut next = v;
+            loop {
+                next = if next == 0xFFFF { 1 } else { next + 1 };
+                if !live.contains(&next) {
+                    break;
+                }
+            }
+            if holder == 2 && want.contains(&next) && !live.contains(&next) {
+                drop(h);
+                salt = salt.wrapping_add(1);
+                let d = ObjSpec::simple(3, salt).desc(None).unwrap();
+                match snd.add_object(0, d) {
+                    Ok(t) => {
+                        n += 1;
+                        if t == 0 || t > 0xFFFF || live.contains(&t) {
+                            return Some(("C15/cycle/toi-not-unique".into(), format!("add_object after allocation #{} got TOI {} (held by {}: {:?})", n, t, how, live)));
+                        }
+                        live.insert(t);
+                    }
+                    Err(e) => return Some(("C15/add-refused".into(), e.0.to_string())),
+                }
+            } else if holder != 2 && want.contains(&v) {
+                live.insert(v);
+                if holder == 0 {
+                    keep.push(h);
+                } else {
+                    salt = salt.wrapping_add(1);
+                    let mut d = ObjSpec::simple(3, salt).desc(None).unwrap();
+                    d.set_toi(h);
+                    match snd.add_object(0, d) {
+                        Ok(t) if t == v => {}
+                        Ok(t) => return Some(("C15/add-object-ignores-handle".into(), format!("object added with handle {} got TOI {}", v, t))),
+                        Err(e) => return Some(("C15/add-refused".into(), e.0.to_string())),
+                    }
+                }
             } else {
                 drop(h);
             }
         }
-        if keep.len() != want.len() {
-            return Some(("C15/cycle/held-values-not-reached".into(), format!("held {:?}, reached {}", held, keep.len())));
+        if live.len() != want.len() {
+            return Some(("C15/cycle/held-values-not-reached".into(), format!("held {:?}, reached {:?}", held, live)));
         }
         None
     });
@@ -345,13 +385,21 @@ pub fn run(thorough: bool) -> i32 {
         }
     }
     // complete cycles of the 16-bit space
-    let helds: Vec<Vec<u128>> = vec![vec![], vec![0xFFFF], vec![1], vec![0x8000], vec![0xFFFF, 1], vec![0xFFFE, 0xFFFF, 1, 2], vec![0xFFFF, 0x8000, 1]];
-    let cres = par_map(&helds, |_, h| cycle16(h));
+    let mut helds: Vec<(Vec<u128>, u8)> = Vec::new();
+    for holder in 0..3u8 {
+        for h in [vec![], vec![0xFFFFu128], vec![1], vec![0x8000], vec![0xFFFF, 1], vec![0xFFFE, 0xFFFF, 1, 2], vec![0xFFFF, 0x8000, 1]] {
+            if holder > 0 && h.is_empty() {
+                continue;
+            }
+            helds.push((h, holder));
+        }
+    }
+    let cres = par_map(&helds, |_, (h, holder)| cycle16(h, *holder));
     let mut cyc = 0u64;
-    for (h, r) in helds.iter().zip(cres) {
+    for ((h, holder), r) in helds.iter().zip(cres) {
         cyc += 2 * 65536 + 10;
         if let Some((key, what)) = r {
-            rep.add(Violation { key, what, case: json!({"check": "cycle", "case": {"held": h.iter().map(|x| x.to_string()).collect::<Vec<_>>()}}) });
+            rep.add(Violation { key, what, case: json!({"check": "cycle", "case": {"held": h.iter().map(|x| x.to_string()).collect::<Vec<_>>(), "holder": holder}}) });
         }
     }
     // random default (None): the same unmasked path as the explicit large values; SAMPLING, never deciding alone
